@@ -662,9 +662,10 @@ func (c *Conn) Seek(offset int64, whence int) (int64, error) {
 		}
 	}
 
+	var current int64
 	if whence == SeekCurrent {
 		c.mutex.Lock()
-		offset = c.offset + offset
+		current = c.offset
 		c.mutex.Unlock()
 	}
 
@@ -678,6 +679,17 @@ func (c *Conn) Seek(offset int64, whence int) (int64, error) {
 		offset = first + offset
 	case SeekEnd:
 		offset = last - offset
+	case SeekCurrent:
+		// The current position may be one of the symbolic FirstOffset or
+		// LastOffset values (the initial state of a connection), which must
+		// be resolved before being used in arithmetic.
+		switch current {
+		case FirstOffset:
+			current = first
+		case LastOffset:
+			current = last
+		}
+		offset = current + offset
 	}
 
 	if offset < first || offset > last {
